@@ -918,3 +918,69 @@ mutant("exc-compass-no-truncation-check", "C17", CMP, "                if i >= l
 mutant("exc-compass-zero-width", "C17", CMP, "    if height <= 0 or width <= 0:\n        raise ValueError(\"board size must be positive\")\n", "", "EXC-5")
 mutant("exc-compass-unvalidated-hex", "C17", CMP, "                    if i + 3 > len(body) or not _is_hex(body[i + 1 : i + 3]):", "                    if i + 3 > len(body):", "EXC-6")
 mutant("exc-compass-outside-board", "C17", CMP, "            if pos >= height * width:\n                raise ValueError(\"clue outside the board\")\n", "", "EXC-7")
+
+# ---- constructs learnt from the third seeding round ---------------------------------------------------
+mutant("vid4-iadd-appends", "C01", EXPR, """    def __radd__(self, other: IntExprLike) -> "IntExpr":
+        return _make_int_expr(Op.ADD, [other, self])
+""", """    def __radd__(self, other: IntExprLike) -> "IntExpr":
+        return _make_int_expr(Op.ADD, [other, self])
+
+    def __iadd__(self, other: IntExprLike) -> "IntExpr":
+        if self.op == Op.ADD:
+            self.operands.append(other)
+            return self
+        return self.__add__(other)
+""", "VID-4")
+mutant("vid4-operands-rebound", "C01", EXPR, """    def is_variable(self) -> bool:
+        return False
+""", """    def is_variable(self) -> bool:
+        return False
+
+    def simplify(self) -> "Expr":
+        self.operands = [x for x in self.operands if x is not None]
+        return self
+""", "VID-4")
+variant("vid4-iadd-fresh", "C01", EXPR, """    def __radd__(self, other: IntExprLike) -> "IntExpr":
+        return _make_int_expr(Op.ADD, [other, self])
+""", """    def __radd__(self, other: IntExprLike) -> "IntExpr":
+        return _make_int_expr(Op.ADD, [other, self])
+
+    def __iadd__(self, other: IntExprLike) -> "IntExpr":
+        return _make_int_expr(Op.ADD, [self, other])
+""")
+mutant("ref-writeback-clears-only", "C02", SOLVER, """            if self.is_answer_key[i]:
+                self.variables[i].sol = answer[i]
+        return True""", """            if self.is_answer_key[i] and answer[i] is None:
+                self.variables[i].sol = None
+        return True""", "REF-E")
+mutant("opc4-id-keyed-cache", "C03", SUGAR, """        return "({} {})".format(OP_TO_OPNAME[e.op], " ".join(map(_convert_expr, e.operands)))""", """        key = id(e)
+        if key not in OP_TO_OPNAME:
+            OP_TO_OPNAME[key] = "({} {})".format(OP_TO_OPNAME[e.op], " ".join(map(_convert_expr, e.operands)))
+        return OP_TO_OPNAME[key]""", "OPC-4")
+mutant("cfg3-find-spec", "C20", CONF, """    try:
+        import z3  # type: ignore  # noqa
+
+        return "z3"
+    except ImportError:
+        pass
+""", """    import importlib.util
+
+    if importlib.util.find_spec("z3") is not None:
+        return "z3"
+""", "CFG-3")
+mutant("enc-acyclic-skip-constant-edges", "C09", GRAPH, """            less_ranks.append((ranks[j] < ranks[i]) & is_active_edge[e])""", """            if isinstance(is_active_edge[e], bool):
+                continue
+            less_ranks.append((ranks[j] < ranks[i]) & is_active_edge[e])""", "ENC-S")
+mutant("pzx-sudoku-block-stride", "C11", PZ + "sudoku.py", "answer[y * n : (y + 1) * n, x * n : (x + 1) * n]", "answer[y * n : (y + 1) * n, x : x + n]", "PZ-X")
+mutant("pzx-sudoku-columns-missing", "C11", PZ + "sudoku.py", "        solver.ensure(alldifferent(answer[:, i]))\n", "", "PZ-X")
+mutant("pzx-sudoku-clue-off", "C11", PZ + "sudoku.py", "            if problem[y][x] >= 1:", "            if problem[y][x] >= 2:", "PZ-X")
+mutant("pzx-yajilin-clue-cell-may-be-black", "C11", PZ + "yajilin.py", "                solver.ensure(~black_cell[y, x])\n", "", "PZ-X")
+mutant("pzx-yajilin-right-clue-short", "C11", PZ + "yajilin.py", "count_true(black_cell[y, (x + 1) : width])", "count_true(black_cell[y, (x + 1) : width - 1])", "PZ-X")
+mutant("pzx-putteria-columns-unchecked", "C11", PZ + "putteria.py", "                if block_size[y1][x] == block_size[y2][x]:", "                if block_size[y1][x] == block_size[y2][x] and False:", "PZ-X")
+mutant("pzx-fillomino-small-clues-ignored", "C11", PZ + "fillomino.py", "            if problem[y][x] >= 1:", "            if problem[y][x] >= 3:", "PZ-X")
+mutant("pzx-lits-same-shape-touching", "C11", PZ + "lits.py", "                        (num_straight[i] != num_straight[j]) | (has_t[i] != has_t[j])\n                    )\n                )\n            if x < width - 1", "                        (num_straight[i] != num_straight[j]) | (has_t[i] != has_t[j]) | True\n                    )\n                )\n            if x < width - 1", "PZ-X")
+mutant("pzx-lits-2x2-allowed", "C11", PZ + "lits.py", "    solver.ensure(~(is_black[1:, 1:] & is_black[1:, :-1] & is_black[:-1, 1:] & is_black[:-1, :-1]))\n", "", "PZ-X")
+mutant("pzx-building-reverse-view", "C11", PZ + "building.py", "            solver.ensure(num_visible_buildings(reversed(list(answer[:, i]))) == dw[i])", "            solver.ensure(num_visible_buildings(answer[:, i]) == dw[i])", "PZ-X")
+# equal heights cannot occur in a Latin row, so <= is the same visibility test
+variant("pzx-building-visible-le", "C11", PZ + "building.py", "fold_and([cells[j] < cells[i] for j in range(i)])", "fold_and([cells[j] <= cells[i] for j in range(i)])")
+mutant("pzx-doppelblock-sum-includes-ends", "C11", PZ + "doppelblock.py", "(fold_or(cells[:i] == 0) & fold_or(cells[i + 1 :] == 0)).cond(cells[i], 0)", "(fold_or(cells[:i] == 0) | fold_or(cells[i + 1 :] == 0)).cond(cells[i], 0)", "PZ-X")
